@@ -145,6 +145,7 @@ NUM_ATOMS = {
                             fn=lambda t, d: d["z"].to_numpy(dtype=float) - _mean(t, "z") + d["w"].to_numpy(dtype=float)),
     "mshift(x, by=gain)": dict(vars_=["x"], stateful=True, fn=lambda t, d: d["x"].to_numpy(dtype=float) - _mean(t, "x") + 3.0),
     "np.power(w, pw)": dict(vars_=["w"], fn=lambda t, d: d["w"].to_numpy(dtype=float) ** 1.5),
+    "bs(x, df=4, lower_bound=-0.5, upper_bound=0.5)": dict(vars_=["x"], stateful=True, width=4, fn=None),
     "center(ni)": dict(vars_=["ni"], stateful=True, fn=lambda t, d: d["ni"].to_numpy(dtype=float) - _mean(t, "ni")),
     "scale(nf)": dict(vars_=["nf"], stateful=True,
                       fn=lambda t, d: (d["nf"].to_numpy(dtype=float) - _mean(t, "nf")) / _sd(t, "nf")),
@@ -411,7 +412,7 @@ PROFILES = {
     ),
     "stateful": dict(
         num=["x", "z", "w", "x\u00b2", "bl", "ni", "nf", "f32", "center(ni)", "scale(nf)", "ser(x)", "I(center(x) * z)", "{scale(z) + x}", "mshift(z, by=w)",
-             "mshift(x, by=gain)", "np.log(w)", "center(x)", "scale(x)", "standardize(z)", "center(np.log(w))",
+             "mshift(x, by=gain)", "bs(x, df=4, lower_bound=-0.5, upper_bound=0.5)", "np.log(w)", "center(x)", "scale(x)", "standardize(z)", "center(np.log(w))",
              "I(center(x) ** 2)", "scale(center(z))", "bs(x, df=4)", "bs(z, df=5, degree=2)", "poly(x, 2)",
              "bs(x, knots=kn_x)", "bs(x, knots=kn_x, degree=2, intercept=True)", "binary(k)", "B(cnt)", "minmax(z)", "xz", "center(xz)", "scale(xz)",
              "bs(z, df=4, lower_bound=-10, upper_bound=20)", "poly(x, 4)",
